@@ -150,8 +150,8 @@ func runConn(c *vh.Ctx, in input) {
 	a, b := net.Pipe()
 	wl := &wireLog{}
 	var ca, cb net.Conn = recConn{a, wl, true}, recConn{b, wl, false}
-	a.SetDeadline(time.Now().Add(10 * time.Second))
-	b.SetDeadline(time.Now().Add(10 * time.Second))
+	a.SetDeadline(time.Now().Add(60 * time.Second))
+	b.SetDeadline(time.Now().Add(60 * time.Second))
 	var cEKM, sEKM ekmFn
 	var cErr, sErr error
 	var vers, suite uint16
